@@ -65,6 +65,15 @@ FIXED += [
   'the bundle builder deleted .terraform/modules/** and every re-included file below an excluded directory; rule "foo" matching a non-empty directory made the build fail'),
 ]
 
+FIXED += [
+ ("C16", "fails:via-symlink-chain-of-two", "fix: resolve a symlinked source directory the way the operating system does",
+  'Pack of a source given as a symlink with a relative target depended on the working directory; a chain of two links gave an empty slug or an lstat error'),
+ ("C16", "race:github.com/hashicorp/go-slug/internal/ignorefiles.readRules+github.com/hashicorp/go-slug/internal/ignorefiles.readRules", "fix: do not modify the shared default ignore rules while parsing a rule file",
+  'data race between concurrent Pack calls on ignorefiles.defaultExclusions[i].negationsAfter (reported by the race detector within one round)'),
+ ("C16", "differs:via-symlink-trailing-slash", "fix: Pack of a symlinked source directory spelled with a trailing slash produced an empty slug",
+  'Pack("link-to-dir/") returned success with an empty slug'),
+]
+
 OPEN = [
  ("C04", "dotdot-after-symlink-component",
   'a link whose target applies ".." after a component that is itself a symlink in dst (e.g. "d/l -> .." together with "m -> d/l/../secret", in either order) is accepted because targets are validated lexically; the operating system resolves m to a location outside dst. No entry can be written through such a link any more (see the fixed C01 entries), but the link itself remains'),
